@@ -1768,3 +1768,107 @@ def parse_errors(repo, run, rule):
         run.violation(rule, fi, 'yaml.parse error reporting', '; '.join(sorted(probs)[:3]))
     else:
         run.ok(rule, fi, 'yaml.parse: loading errors -> ParsingError(str(e), node=None, path=None) from e; ParsingError passes (%d paths)' % n)
+
+
+def child_kwargs_table(repo, run, rule):
+    """ComposedNode._get_child_kwargs evaluated for mappings and lists x (delete, implicit_delete, allow_new, implicit_allow_new): what a
+    container hands to the children built under it is its explicit flag, else - for delete - its type default (lists: True) or the flag
+    it inherited itself, - for allow_new - the flag it inherited"""
+    import itertools
+    fi = repo.func('ComposedNode._get_child_kwargs')
+    bad = []
+    rows = 0
+    for cls, dflt in (('ConfigDict', False), ('ConfigList', True)):
+        owner, e = repo.class_attr(cls, '_default_delete')
+        from ..srcmodel import fold_const
+        ok, v = fold_const(repo, e, owner) if e is not None else (False, None)
+        if not ok or v is not dflt:
+            continue          # (the class defaults themselves are C02.R5's business)
+        for d, idl, an, ian in itertools.product((None, True, False), (None, True, False), (None, True, False), (None, True, False)):
+            me = node_obj('c', cls, _delete=d, _implicit_delete=idl, _allow_new=an, _implicit_allow_new=ian)
+            ev = _fde(repo)
+            try:
+                r = ev.call(fi, me)
+            except Unsupported as e2:
+                raise AnalysisError('_get_child_kwargs: finite-domain evaluator refused: %s' % e2)
+            rows += 1
+            want_d = d if d is not None else (dflt or idl)
+            want_n = an if an is not None else ian
+            if r.raised or not isinstance(r.ret, dict) or r.ret.get('implicit_delete', '<absent>') != want_d or r.ret.get('implicit_allow_new', '<absent>') != want_n:
+                bad.append('%s(delete=%r, implicit_delete=%r, allow_new=%r, implicit_allow_new=%r) hands its children %s, expected implicit_delete=%r, implicit_allow_new=%r' % (
+                    cls, d, idl, an, ian, r.raised or {k: r.ret.get(k, '<absent>') for k in ('implicit_delete', 'implicit_allow_new')}, want_d, want_n))
+    if not rows:
+        raise AnalysisError('_get_child_kwargs: class defaults of ConfigDict / ConfigList not as documented')
+    if bad:
+        run.violation(rule, fi, '_get_child_kwargs', '; '.join(bad[:2]))
+    else:
+        run.ok(rule, fi, '_get_child_kwargs evaluated on %d rows (mapping / list x delete x implicit_delete x allow_new x implicit_allow_new)' % rows)
+
+
+def getter_table(repo, run, rule):
+    """the plain merge-control getters of ConfigNode.ayns evaluated: each returns the field it is named after (explicit_delete the
+    explicit delete flag, idx the stage index, source_file the recorded file ...)"""
+    bad = []
+    n = 0
+    for name, field in (('explicit_delete', '_delete'), ('idx', '_idx'), ('source_file', '_source_file'), ('metadata', '_metadata')):
+        fi = repo.classes['ConfigNode'].ayns.get(name)
+        if fi is None:
+            continue
+        n += 1
+        for val in ('V1', None, False):
+            me = node_obj('n', 'ConfigNode', **{field: val})
+            ev = _fde(repo)
+            try:
+                r = ev.call(fi, me)
+            except Unsupported as e:
+                raise AnalysisError('ConfigNode.ayns.%s: finite-domain evaluator refused: %s' % (name, e))
+            if r.raised or r.ret is not val and r.ret != val:
+                bad.append('ayns.%s gives %r for %s=%r' % (name, r.raised or r.ret, field, val))
+    if n < 3:
+        raise AnalysisError('ConfigNode.ayns getters not found')
+    if bad:
+        run.violation(rule, repo.classes['ConfigNode'].ayns['explicit_delete'], 'ConfigNode.ayns getters', '; '.join(bad[:3]))
+    else:
+        run.ok(rule, repo.classes['ConfigNode'].ayns['explicit_delete'], '%d plain getters return their field' % n)
+
+
+def current_file_tracking(repo, run, rule):
+    """Builder.add_source on traces: when the source names a file that is opened, the builder records that name as the file being
+    parsed before the parser runs (nodes take their source file from it); Builder.current_stage marks the given stage for the
+    duration of its block and puts the previous mark back"""
+    fi = repo.func('Builder.add_source')
+    src = fi.params()[1]
+    n = 0
+    bad = set()
+    for p in tr.paths_of(repo, fi, follow_exceptions=False):
+        opened = [i for i, e in enumerate(p.events) if e.kind == 'with_enter' and e.callee.startswith('open(')]
+        parse = [i for i, e in enumerate(p.events) if e.kind == 'call' and e.attr == 'parse']
+        if not opened or not parse:
+            continue
+        n += 1
+        st = [e for e in p.events[opened[0]:parse[0]] if e.kind == 'store' and e.target == 'self._current_file' and e.value is not None and e.value.text in (src, 'str(%s)' % src)]
+        if not st:
+            bad.add('a source that is opened as a file is parsed without its name being recorded as the current file')
+    if not n:
+        raise AnalysisError('Builder.add_source: no path opens a file and parses it')
+    cs = repo.func('Builder.current_stage')
+    prm = cs.params()[1]
+    m = 0
+    for p in tr.paths_of(repo, cs, follow_exceptions=False):
+        ys = [i for i, e in enumerate(p.events) if e.kind == 'yield']
+        if not ys or p.status != 'return':
+            continue
+        m += 1
+        sets = [(i, e) for i, e in enumerate(p.events) if e.kind == 'store' and e.target == 'self._current_stage']
+        before = [e for i, e in sets if i < ys[0]]
+        after = [e for i, e in sets if i > ys[-1]]
+        if not before or before[-1].value is None or before[-1].value.text != prm:
+            bad.add('current_stage(%s) does not mark stage %s while its block runs' % (prm, prm))
+        if not after or after[-1].value is None or after[-1].value.text != 'self._current_stage':
+            bad.add('current_stage does not put the previous mark back')
+    if not m:
+        raise AnalysisError('Builder.current_stage: no path through its yield')
+    if bad:
+        run.violation(rule, fi, 'current file / current stage', '; '.join(sorted(bad)))
+    else:
+        run.ok(rule, fi, 'an opened source file is recorded before parsing (%d paths); current_stage sets and restores its mark' % n)
